@@ -134,7 +134,7 @@ func init() {
 	reg(&checkSpec{ID: "C11", Assumptions: strAssume, Runs: []runSpec{
 		{Harness: pkgBastion + ".VerifParseBodyHashLengths", Domain: sym.DomString, Solver: sym.CVC5, Quick: p("maxhash", 64), Thorough: p("maxhash", 64), Covers: []string{"parse/lengths-roundtrip"}},
 		{Harness: pkgBastion + ".VerifParseBodyRoundTrip", Domain: sym.DomString, Solver: sym.CVC5, Quick: p("k", 8), Thorough: p("k", 64), Unwind: 200, Covers: []string{"parse/roundtrip-with-proof"}},
-		{Harness: pkgBastion + ".VerifParseBodyRefusal", Domain: sym.DomString, Solver: sym.CVC5, Quick: p("k", 2), Thorough: p("k", 4), Unwind: 4, CutOnUnwind: true, Covers: []string{"parse/accepts-one-proof-line", "parse/refuses"}},
+		{Harness: pkgBastion + ".VerifParseBodyRefusal", Domain: sym.DomString, Solver: sym.CVC5, Quick: p("k", 2), Thorough: p("k", 3), Unwind: 4, CutOnUnwind: true, TimeoutMs: 30000, Covers: []string{"parse/accepts-one-proof-line", "parse/refuses"}},
 		{Harness: pkgWitness + ".VerifProofRoundTrip", Domain: sym.DomString, Solver: sym.CVC5, Quick: p("k", 8, "maxsplit", 10), Thorough: p("k", 64, "maxsplit", 66), Unwind: 200, Covers: []string{"proof/roundtrip-two"}},
 		{Harness: pkgFeedbastion + ".VerifWriterRoundTrip", Domain: sym.DomString, Solver: sym.CVC5, Quick: p("k", 8), Thorough: p("k", 64), Unwind: 200, Covers: []string{"writer/roundtrip-two"}},
 	}})
@@ -289,7 +289,7 @@ func cmdCheck(args []string) int {
 		}
 		cfg := &sym.RunConfig{Harness: r.Harness, Domain: r.Domain, Solver: r.Solver, Props: map[string]bool{id: true}, Params: params, Known: myKnown, Unwind: r.Unwind, TimeoutMs: r.TimeoutMs, CutOnUnwind: r.CutOnUnwind}
 		if tier == "thorough" && cfg.TimeoutMs == 0 {
-			cfg.TimeoutMs = 200000
+			cfg.TimeoutMs = 120000
 		}
 		if cfg.TimeoutMs == 0 {
 			cfg.TimeoutMs = 20000
